@@ -44,6 +44,7 @@ class C15(Property):
         "_find_cross_origin_intergenic", "find_all_orfs", "create_feature_from_location",
         "get_trimmed_orf")] + [
         ("antismash/common/secmet/record.py", "Record.get_aa_translation_from_location"),
+        ("antismash/common/secmet/locations.py", "get_sub_location_from_offsets"),
     ]
     RULE = ("scan: DNA built from planted start/stop codons, random triplets and single frame-shifting bases over "
             "ACGT + N/ambiguity codes + lower case, cut as a window out of a random record (linear, or a ring with "
@@ -60,7 +61,7 @@ class C15(Property):
                "str.upper() on ASCII input = per-character upper-casing",
                "Python % with a positive modulus = Int.emod; record_length > 0, direction in {1,-1}",
                "Record.get_cds_features_within_location (C08) is called for real; its result is an input of the model",
-               "get_trimmed_orf is modelled for single-part ORFs only"]
+               "get_sub_location_from_offsets is C09's model (Model/ProtDna.lean)"]
 
     def __init__(self) -> None:
         self.exhaustive_done = False
@@ -259,15 +260,46 @@ class C15(Property):
         orf = "".join(cods) + (rng.choice(["", "", "A", "CA"]))
         if rng.random() < 0.1:
             orf = orf.lower()
-        pre = "".join(rng.choice("ACGT") for _ in range(rng.choice([0, 3, 5])))
-        post = "".join(rng.choice("ACGT") for _ in range(rng.choice([0, 4, 6])))
-        rec = pre + (orf if fwd else self.revcomp(orf)) + post
         n = len(orf)
         opt = lambda vals: rng.choice([None, None, None] + vals)  # noqa: E731
-        return {"kind": "trim", "rec": rec, "lo": len(pre), "hi": len(pre) + n, "fwd": fwd,
-                "incl": opt([0, 1, 3, 4, n // 2, n - 3, n, n + 2]),
-                "minlen": rng.choice([0, 0, 0, 0, 3, 3, 6, n - 3, n, n + 1]),
-                "maxlen": opt([3, 5, 6, 7, 9, n - 1, n, n + 4])}
+        options = {"incl": opt([0, 1, 3, 4, n // 2, n - 3, n, n + 2]),
+                   "minlen": rng.choice([0, 0, 0, 0, 3, 3, 6, n - 3, n, n + 1]),
+                   "maxlen": opt([3, 5, 6, 7, 9, n - 1, n, n + 4])}
+        text = orf if fwd else self.revcomp(orf)      # the ORF's bases in coordinate order
+        strand = 1 if fwd else -1
+        shape = rng.random()
+        if shape < 0.55:         # one part
+            pre = "".join(rng.choice("ACGT") for _ in range(rng.choice([0, 3, 5])))
+            post = "".join(rng.choice("ACGT") for _ in range(rng.choice([0, 4, 6])))
+            return dict({"kind": "trim", "rec": pre + text + post, "lo": len(pre), "hi": len(pre) + n, "fwd": fwd},
+                        **options)
+        if shape < 0.8:          # across the origin of a ring: [L-a, L) + [0, n-a)
+            a = rng.randrange(1, n)
+            filler = "".join(rng.choice("ACGT") for _ in range(rng.choice([1, 4, 9])))
+            rec = text[a:] + filler + text[:a]
+            L = len(rec)
+            parts = [[L - a, L, strand], [0, n - a, strand]]
+            circular = True
+        else:                    # two or three exons on a line
+            cuts = sorted(rng.sample(range(1, n), rng.choice([1, 2]) if n > 2 else 1))
+            pieces = [text[i:j] for i, j in zip([0] + cuts, cuts + [n])]
+            rec, parts = "", []
+            for piece in pieces:
+                rec += "".join(rng.choice("ACGT") for _ in range(rng.choice([0, 2, 5])))
+                parts.append([len(rec), len(rec) + len(piece), strand])
+                rec += piece
+            rec += "".join(rng.choice("ACGT") for _ in range(rng.choice([0, 3])))
+            circular = False
+        if not fwd:
+            parts.reverse()      # transcription order
+        return dict({"kind": "trim", "rec": rec, "loc": {"c": True, "parts": parts}, "circular": circular, "fwd": fwd},
+                    **options)
+
+    @staticmethod
+    def trim_loc(case: Dict[str, Any]) -> Dict[str, Any]:
+        if "loc" in case:
+            return case["loc"]
+        return {"c": False, "parts": [[case["lo"], case["hi"], 1 if case["fwd"] else -1]]}
 
     def cases(self, rng: random.Random, tier: str, deep: bool) -> Iterator[Dict[str, Any]]:
         mult = 10 if deep else 1
@@ -400,8 +432,8 @@ class C15(Property):
     def impl_trim(self, case: Dict[str, Any]) -> Dict[str, Any]:
         from antismash.common.all_orfs import get_trimmed_orf
         from antismash.common.secmet.test.helpers import DummyCDS, DummyRecord
-        record = DummyRecord(seq=case["rec"])
-        cds = DummyCDS(case["lo"], case["hi"], 1 if case["fwd"] else -1, locus_tag="orf")
+        record = DummyRecord(seq=case["rec"], circular=bool(case.get("circular")))
+        cds = DummyCDS(location=common.make_location(self.trim_loc(case)), locus_tag="orf")
         seq = str(cds.extract(record.seq))
         out: Dict[str, Any] = {"seq": seq}
         try:
@@ -415,9 +447,10 @@ class C15(Property):
         if new is None:
             out["result"] = None
         else:
-            out["result"] = [int(new.location.start), int(new.location.end)]
-            out["strand"] = new.location.strand
+            out["result"] = common.location_json(new.location)
             out["new_seq"] = str(new.location.extract(record.seq))
+            out["translation_ok"] = str(new.translation)[1:] == str(
+                record.get_aa_translation_from_location(new.location))[1:]
         return out
 
     # ------------------------------------------------------------------ driver
@@ -438,7 +471,7 @@ class C15(Property):
         if kind == "trim":
             if "seq" not in obs:
                 return None
-            return {"kind": kind, "seq": obs["seq"], "lo": case["lo"], "hi": case["hi"], "fwd": case["fwd"],
+            return {"kind": kind, "seq": obs["seq"], "loc": self.trim_loc(case),
                     "incl": case["incl"], "minlen": case["minlen"], "maxlen": case["maxlen"]}
         raise ValueError(kind)
 
@@ -542,14 +575,24 @@ class C15(Property):
         corr = res == drv["model"]
         detail = "" if corr else f"model {drv['model']} vs implementation {res}"
         spec_ok = True
-        if isinstance(res, list):
+        found = isinstance(res, dict)
+        if found:
             new, old = obs["new_seq"], obs["seq"]
-            if not (old.endswith(new) and new[:3] in STARTS and len(new) < len(old) + 1
-                    and obs["strand"] == (1 if case["fwd"] else -1)):
+            strand = 1 if case["fwd"] else -1
+            if not (old.endswith(new) and new[:3] in STARTS and (len(old) - len(new)) % 3 == self.trim_frame(case, len(old))
+                    and len(new) > case["minlen"] and all(p[2] == strand for p in res["parts"])
+                    and obs["translation_ok"]):
                 spec_ok = False
-                detail = f"trimmed ORF {new} is not a start-codon suffix of {old}"
-        tags = ("trim", "found" if isinstance(res, list) else str(res))
-        return Judgement(corr, spec_ok, nontrivial=isinstance(res, list), tags=tags, detail=detail)
+                detail = f"trimmed ORF {res} = {new} is not an in-frame start-codon suffix of {old}"
+        shape = "multi-part" if self.trim_loc(case)["c"] else "one-part"
+        tags = ("trim", shape, "found" if found else str(res))
+        return Judgement(corr, spec_ok, nontrivial=found, tags=tags, detail=detail)
+
+    @staticmethod
+    def trim_frame(case: Dict[str, Any], n: int) -> int:
+        """residue class mod 3 of the first position searched (0 for ORFs of whole codons)"""
+        maxlen = n if case["maxlen"] is None else case["maxlen"]
+        return max(0, n - (maxlen - maxlen % 3)) % 3
 
     # ------------------------------------------------------------------ shrinker
     def shrink(self, case: Dict[str, Any]) -> Iterator[Dict[str, Any]]:
